@@ -125,6 +125,20 @@ prop('C16', True, "Lean model of argument evaluation (value()) and dependency re
      "Wrappers CustomHash/NoHash applied to plain values (documented use); Python semantics of the small value universe trusted as validated against the running interpreter.",
      "Lean 4 proof (mutual structural induction) + differential correspondence with the real value()/dependencies()")
 
+prop('C14', True, "Lean model of the loader: a jugfile is a program whose continuation may depend on stored values (task / barrier / bvalue / compound); load against a store gives the task list and the barrier flag. Theorems: "
+     "barrier_guard, bvalue_exact (stored value or stop, no third outcome), load_prefix (against any sound store the loaded list is a prefix of the sequential program), progress_from_clean and phase_progress (a reload after the "
+     "loaded tasks completed defines strictly more tasks or reaches the end: the reload loop terminates), check_never_early (stopped => some loaded task has no result, so check exits 1 by C15). Correspondence: generated "
+     "multi-barrier jugfiles whose later shape depends on earlier values x every prefix and many arbitrary subsets of results present x in-memory/redis-protocol/file stores: real jug.init task list and flag = model; marker side effects "
+     "after each barrier; values handed out by bvalue; the real reload loop to completion; real concurrent `jug execute` processes; the real check walk.",
+     "Assumes bvalue arguments are tasks created earlier; completion of each phase's tasks is C01; an interrupt swallowed by bvalue's bare except during a reload is outside the statement.",
+     "Lean 4 proof (structural induction over jugfile programs with value-dependent continuations) + differential correspondence with the real loader")
+prop('C18', True, "Same loader model with compound tasks. Theorems: collapsed_defines_none, expanded_defines_inner, compound_value (same key either way; sound store => same value), compound_counts_for_barrier, "
+     "cleanup_keeps_compound (with C10: inner results may go, the compound stays), collapsed_contributes_one. Correspondence: generated jugfiles with several compounds (mixed with barriers) x store states (nothing / some inner / "
+     "all inner / compound with and without inner results / stale lock on the compound) on three store kinds: real task list = model; life cycle execute -> reload -> execute -> real cleanup -> reload -> execute with value, "
+     "re-execution and store-content monitors.",
+     "Compound builders deterministic; inner tasks are ordinary tasks of layer A (their scheduling is C01-C03).",
+     "Lean 4 proof + differential correspondence with the real loader and the real cleanup")
+
 def main():
     checks, na = [], []
     ids = ['C%02d' % i for i in range(1, 21)]
